@@ -10,6 +10,8 @@
  * mode=fillers  the seven exported fillers called the way evical.c's refill() calls them
  *               (nti = 64, proto in the first 64 slots, rule parsed by echs_read_rrul()) on 128
  *               instants that end at an inaccessible page; for hostile and grammar rules
+ * mode=tzswitch zoned events and direct conversions on the very seconds at which a zone changes its offset (see enum_tzswitch;
+ *               options y0= y1= zones=min|all)
  * Every stream is asked for 300 occurrences.  Run under ASan + bounds (variant asan).
  *
  * clauses
@@ -1021,6 +1023,275 @@ filler_grammar(const struct rg_rule_s *g, void *clo)
 }
 
 /* ------------------------------------------------------------------ */
+/* mode=tzswitch: occurrences on the very second at which a zone changes its UTC offset.
+ * (a) streams, case = (zone, year): DTSTART;TZID=zone on January 1st of the year with FREQ=HOURLY (on the hour, through the
+ *     year), FREQ=MINUTELY;INTERVAL=30 (through the year) and FREQ=DAILY at each of the 24 full local hours (366 days): on the
+ *     stream's own clock these pass through every transition second of the year that lies on a half or full hour UTC.
+ * (b) direct calls, case = zone: echs_tzob_offs, echs_instant_loc at T-1, T, T+1 and echs_instant_utc at the wall-clock
+ *     images of these under the offset before and after, for every transition T of the zone's 32-bit table in 1902..2037
+ *     (transition seconds from the driver's own reader of the file, ref/tzifmini.h).
+ * Judged: every call answers within the CPU budget (two stages as everywhere in this driver), no sanitizer report.  What the
+ * answers are is C07's subject. */
+#include "tzob.h"
+#include "ref/tzifmini.h"
+#if !defined TZDIR
+# define TZDIR	"/usr/share/zoneinfo"
+#endif
+
+static const char *const sw_zones[] = {
+	"Europe/Berlin", "America/New_York", "Australia/Sydney", "Europe/London", "America/Sao_Paulo", "Australia/Lord_Howe", "Pacific/Auckland",
+	/* zones=all */
+	"America/Los_Angeles", "America/Chicago", "America/Denver", "America/Anchorage", "America/Halifax", "America/St_Johns", "America/Santiago",
+	"America/Havana", "America/Mexico_City", "Atlantic/Azores", "Europe/Lisbon", "Europe/Dublin", "Europe/Helsinki", "Europe/Moscow",
+	"Europe/Istanbul", "Asia/Tehran", "Asia/Jerusalem", "Asia/Amman", "Africa/Cairo", "Africa/Casablanca", "Australia/Adelaide",
+	"Pacific/Chatham", "Pacific/Apia",
+};
+#define SW_NZ_MIN	7
+#define SW_NZ_ALL	((int)(sizeof(sw_zones) / sizeof(*sw_zones)))
+
+static struct tzm_s sw_tab;
+
+/* follow one event to its end (COUNT) under BUDGET s of CPU per call, parsing included; occurrences delivered, *HUNG set */
+static long
+sw_follow(const char *dtline, const char *rrule, long maxpops, double budget, int *hung)
+{
+	static echs_task_t t;
+	static volatile long n;
+
+	n = 0;
+	t = NULL;
+	*hung = 0;
+	if (sigsetjmp(sf_jmp, 0)) {
+		*hung = 1;
+		return n;
+	}
+	sf_arm(budget);
+	if ((t = sf_mktask(dtline, rrule, "", "")) == NULL || t->strm == NULL) {
+		sf_disarm();
+		vd_count("not_accepted", 1);
+		if (t) free_echs_task(t);
+		return -1;
+	}
+	sf_progress++;
+	while (n < maxpops) {
+		echs_event_t e = echs_evstrm_pop(t->strm);
+		sf_progress++;
+		if (echs_nul_event_p(e)) {
+			break;
+		}
+		n++;
+	}
+	sf_disarm();
+	free_echs_task(t);
+	return n;
+}
+
+/* how many stream hangs have been reported in this shard */
+static long
+sw_stream_hangs(void)
+{
+	static const char pfx[] = "hang/tz-switch-second/stream/";
+	long n = 0;
+	for (int i = 0; i < VD_NSIG && vd_sh->sig[i].sig[0]; i++) {
+		if (!strncmp(vd_sh->sig[i].sig, pfx, sizeof(pfx) - 1)) {
+			n += vd_sh->sig[i].n;
+		}
+	}
+	return n;
+}
+
+/* two stages; 1 if a hang was reported */
+static int
+sw_stream(const char *dtline, const char *rrule, long count, const char *fclass)
+{
+	char full[200], sig[320];
+	int hung;
+	long n;
+
+	snprintf(full, sizeof(full), "%s;COUNT=%ld", rrule, count);
+	vd_desc("%s RRULE:%s", dtline, full);
+	vd_shape("tz-switch-second/stream/%s", fclass);
+	vd_sh->evals++;
+	n = sw_follow(dtline, full, count + 2, b1, &hung);
+	if (hung) {
+		vd_count("stage1_no_answer", 1);
+		n = sw_follow(dtline, full, count + 2, b2, &hung);
+		if (hung) {
+			snprintf(sig, sizeof(sig), "hang/tz-switch-second/stream/%s", fclass);
+			vd_viol(sig, "call %ld for the next occurrence does not answer within %.2f s of CPU", n + 1, b2);
+			return 1;
+		}
+		vd_count("slow_but_answered", 1);
+	}
+	if (n > count) {
+		snprintf(sig, sizeof(sig), "count-exceeded/tz-switch-second/stream/%s", fclass);
+		vd_viol(sig, "%ld occurrences from a rule with COUNT=%ld", n, count);
+	}
+	if (n > 0) {
+		vd_count("occurrences_asked", n);
+	}
+	return 0;
+}
+
+struct sw_call_s {
+	int fn;	/* 0 offs, 1 loc, 2 utc */
+	int dx;
+	int side;	/* utc: 0 wall clock under the offset before, 1 after */
+	int64_t arg;
+};
+
+static echs_instant_t
+sw_inst(int64_t secs)
+{
+	rf_dt t = rf_from_secs(secs, 0);
+	char b[24], *on = NULL;
+	snprintf(b, sizeof(b), "%04d%02d%02dT%02d%02d%02d", t.y, t.m, t.d, t.H, t.M, t.S);
+	return dt_strp(b, &on, strlen(b));
+}
+
+static void
+sw_direct(const char *zone)
+{
+	static volatile int k, c, stage;
+	static struct sw_call_s call;
+	static volatile long ncalls;
+	static const char *const fnn[] = {"offs", "loc", "utc"};
+	static echs_tzob_t z;
+	const int64_t lo = rf_days(1902, 1, 1) * 86400, hi = rf_days(2038, 1, 1) * 86400;
+	char b[32], sig[320];
+	static volatile long nsw;
+
+	z = echs_tzob(zone, strlen(zone));
+	ncalls = 0;
+	nsw = 0;
+	stage = 0;
+	k = 0, c = 0;
+	vd_shape("tz-switch-second/direct");
+	if (sigsetjmp(sf_jmp, 0)) {
+		if (!stage) {
+			/* once more, this call alone with the large budget */
+			vd_count("stage1_no_answer", 1);
+			stage = 1;
+		} else {
+			snprintf(sig, sizeof(sig), "hang/tz-switch-second/direct/%s/%s", fnn[call.fn], call.dx < 0 ? "second-before" : call.dx ? "second-after" : "on-the-second");
+			vd_desc("zone %s (%d transitions in the 32-bit table): transition #%d at %sZ, offsets %d -> %d", zone, sw_tab.n, (int)k,
+				sf_secs_str(b, sizeof(b), sw_tab.t[k], 0), (int)sw_tab.before[k], (int)sw_tab.after[k]);
+			vd_viol(sig, "%s(%s%s) in %s does not answer within %.2f s of CPU",
+				call.fn == 0 ? "echs_tzob_offs" : call.fn == 1 ? "echs_instant_loc" : "echs_instant_utc",
+				sf_secs_str(b, sizeof(b), call.arg, 0), call.fn == 2 ? " local" : "Z", zone, b2);
+			vd_sh->evals += ncalls;
+			return;
+		}
+	}
+	for (; k < sw_tab.n; k++, c = 0) {
+		const int64_t T = sw_tab.t[k];
+		if (T < lo || T >= hi) {
+			continue;
+		}
+		if (!c) nsw++;
+		/* 3 x (offs, loc, utc-before, utc-after) */
+		for (; c < 12; c++) {
+			/* on the second first */
+			call.dx = c / 4 == 0 ? 0 : c / 4 == 1 ? -1 : 1;
+			call.fn = c % 4 < 2 ? c % 4 : 2;
+			call.side = c % 4 == 3;
+			call.arg = T + call.dx + (call.fn == 2 ? (call.side ? sw_tab.after[k] : sw_tab.before[k]) : 0);
+			{
+				echs_instant_t i = sw_inst(call.arg);
+				sf_arm(stage ? b2 : b1);
+				switch (call.fn) {
+				case 0: (void)echs_tzob_offs(z, i, 0); break;
+				case 1: (void)echs_instant_loc(i, z); break;
+				default: (void)echs_instant_utc(i, z); break;
+				}
+				sf_disarm();
+				sf_progress++;
+				ncalls++;
+			}
+			if (stage) {
+				vd_count("slow_but_answered", 1);
+				stage = 0;
+			}
+		}
+	}
+	vd_sh->evals += ncalls;
+	vd_count("switch_seconds_called_directly", nsw);
+	if (nsw) {
+		vd_nontrivial();
+	}
+}
+
+static void
+enum_tzswitch(void)
+{
+	const int y0 = (int)vd_opt_l("y0", 2010), y1 = (int)vd_opt_l("y1", 2036);
+	const int nzs = !strcmp(vd_opt("zones", "min"), "all") ? SW_NZ_ALL : SW_NZ_MIN;
+	char path[400];
+
+	/* (b) first: cheap, and its verdicts do not depend on what the worker did before */
+	for (int zi = 0; zi < SW_NZ_ALL; zi++) {
+		if (!vd_next()) {
+			continue;
+		}
+		vd_desc("zone %s: direct calls on every transition second", sw_zones[zi]);
+		snprintf(path, sizeof(path), "%s/%s", TZDIR, sw_zones[zi]);
+		if (access(path, R_OK) || tzm_load(&sw_tab, TZDIR, sw_zones[zi]) < 0) {
+			vd_count("zones_not_installed", 1);
+			continue;
+		}
+		sw_direct(sw_zones[zi]);
+		if (zi < 3) {
+			vd_sample("zone %s: offs/loc at T-1, T, T+1 and utc at their wall-clock images for the transitions of 1902..2037 (%d in the table)", sw_zones[zi], sw_tab.n);
+		}
+	}
+	/* (a) */
+	for (int zi = 0; zi < nzs; zi++) {
+		int have = -1;
+		for (int y = y0; y <= y1; y++) {
+			char dtline[120];
+			int nsw = 0, stop;
+			const int64_t a = rf_days(y, 1, 1) * 86400, e = rf_days(y + 1, 1, 1) * 86400;
+
+			if (!vd_next()) {
+				continue;
+			}
+			vd_desc("zone %s year %d: HOURLY, MINUTELY;INTERVAL=30 and 24 DAILY events from January 1st", sw_zones[zi], y);
+			if (have < 0) {
+				snprintf(path, sizeof(path), "%s/%s", TZDIR, sw_zones[zi]);
+				have = !access(path, R_OK) && tzm_load(&sw_tab, TZDIR, sw_zones[zi]) == 0;
+			}
+			if (!have) {
+				vd_count("zones_not_installed", 1);
+				continue;
+			}
+			for (int k = 0; k < sw_tab.n; k++) {
+				nsw += sw_tab.t[k] >= a && sw_tab.t[k] < e && sw_tab.t[k] % 1800 == 0;
+			}
+			if (vd_only < 0 && sw_stream_hangs() >= 6) {
+				/* every hang costs the two budgets: after six in one shard the remaining (zone, year) cases are left out, counted;
+				 * a case that is run is run as it would be alone */
+				vd_count("left_out_after_repeated_hangs", 1);
+				continue;
+			}
+			vd_count("switch_seconds_on_the_half_hour_grid", nsw);
+			if (nsw) {
+				vd_nontrivial();
+			}
+			snprintf(dtline, sizeof(dtline), "DTSTART;TZID=%s:%04d0101T000000", sw_zones[zi], y);
+			stop = sw_stream(dtline, "FREQ=HOURLY", 8790, "HOURLY");
+			stop = stop || sw_stream(dtline, "FREQ=MINUTELY;INTERVAL=30", 17580, "MINUTELY-i30");
+			for (int h = 0; h < 24 && !stop; h++) {
+				snprintf(dtline, sizeof(dtline), "DTSTART;TZID=%s:%04d0101T%02d0000", sw_zones[zi], y, h);
+				stop = sw_stream(dtline, "FREQ=DAILY", 366, "DAILY");
+			}
+			if (y == y0 + 5) {
+				vd_sample("DTSTART;TZID=%s:%04d0101T000000 RRULE:FREQ=HOURLY;COUNT=8790, ...FREQ=MINUTELY;INTERVAL=30;COUNT=17580, DTSTART at 00..23 o'clock RRULE:FREQ=DAILY;COUNT=366: %d switch seconds of the zone on these grids", sw_zones[zi], y, nsw);
+			}
+		}
+	}
+}
+
+/* ------------------------------------------------------------------ */
 static void
 enumerate(void)
 {
@@ -1056,6 +1327,8 @@ enumerate(void)
 		if (!strcmp(vd_opt("fillrules", "all"), "all")) {
 			rg_enumerate(&c, filler_grammar, NULL);
 		}
+	} else if (!strcmp(mode, "tzswitch")) {
+		enum_tzswitch();
 	} else {
 		fprintf(stderr, "c09: unknown mode %s\n", mode);
 		exit(2);
